@@ -173,7 +173,7 @@ def gen_module(rng, mod_name, other_modules, size):
         lines.append(f"def flow_{mod_name}(alpha, beta=None):")
         lines.append("    eta = alpha")
         lines.append("    theta = {'k': eta}")
-        lines.append("    sink(eta)")
+        lines.append("    sink(eta)" if rng.random() < 0.6 else "    sink(eta, 'caf\\xe9 \\u540d')")      # an ASCII source whose flow report is not ASCII
         lines.append("    return theta")
         lines.append(f"flow_{mod_name}(1)")
     src = "\n".join(lines) + "\n"
